@@ -22,7 +22,7 @@ RULE = ('For each catalogued topology and generated speeds/delays (< 100 ms) a r
         'links with messages in flight or a buffered partial set at the kill, or the fault was a stall/never-restart. Distinct = distinct case value.')
 ASSUMPTIONS = ['socket model of DESIGN.md section 3.3; "fair schedule" = every runnable actor runs and every message is delivered, which the simulator guarantees',
                'liveness is bounded liveness in virtual time on sampled schedules; an adversarial infinite schedule is out of reach']
-BUDGET = {'quick': 50, 'thorough': 1200}
+BUDGET = {'quick': 75, 'thorough': 1200}
 B_MS = 7000
 CONN_TIMEOUT_MS = 5000
 
@@ -35,7 +35,7 @@ def prepare():
     _S['harness'] = harness
 
 
-TOPOS = ['chain', 'tee', 'rejoin', 'balance', 'watch']
+TOPOS = ['chain', 'tee', 'rejoin', 'balance', 'watch', 'ephfirst']
 
 
 def build_nodes(case):
@@ -58,6 +58,12 @@ def build_nodes(case):
                  {'id': 'B', 'sources': ['S'], 'beh': {'kind': 'xf', 'work': [w[2]], 'topics': ['other']}, 'required': ['K'] if req else None},
                  {'id': 'K', 'sources': ['A', 'B'], 'nout': 0, 'beh': {'kind': 'sink', 'work': [0]}}]
         sinks, required_of = ['K'], {'A': 'S', 'B': 'S', 'K': 'A'}
+    elif case['topo'] == 'ephfirst':
+        # a consumer that lists an ephemeral side source *before* its synchronized source
+        nodes = [{'id': 'S', 'beh': {'kind': 'src', 'n': N, 'work': [3 if case.get('fast_src') else w[0]]}, 'required': ['K'] if req else None},
+                 {'id': 'E', 'beh': {'kind': 'src', 'n': N, 'work': [40], 'topics': ['aux']}},
+                 {'id': 'K', 'sources': ['E?;aux>side', 'S'], 'nout': 0, 'beh': {'kind': 'sink', 'work': [0 if case.get('fast_src') else w[2]]}}]
+        sinks, required_of = ['K'], {'K': 'S'}
     elif case['topo'] == 'watch':
         # a viewer attached with '?' is the source's only consumer (a Webvis on a camera)
         nodes = [{'id': 'S', 'beh': {'kind': 'src', 'n': N, 'work': [3 if case.get('fast_src') else w[0]]}},
@@ -210,18 +216,18 @@ def run_case(case, nref=None):
 
 def enum_cases(tier):
     stride = 100 if tier == 'quick' else 4
-    for topo in TOPOS:
+    for topo in TOPOS[:4] + ['watch']:      # 'ephfirst' is covered by the sampled part only (the sweep's cost is per topology)
         base = {'topo': topo, 'required': topo in ('chain', 'rejoin'), 'work': [40, 10, 60], 'fault': 'kill', 'stall_ms': 6000,
                 'net': {'cls': 'lan', 'delays': [[50, 4000, 900], [12000, 50], [300]], 'conn': [1000, 20000], 'drops': [], 'ties': [0, 1], 'flush': True}, 'ipc': False}
         for chunk in range(16):
-            yield {**base, 'stride': stride, 'chunk': chunk, 'chunks': 16, 'fast_src': topo == 'watch'}
+            yield {**base, 'stride': stride, 'chunk': chunk, 'chunks': 16, 'fast_src': topo in ('watch', 'ephfirst')}
 
 
 def run_enum(case):
     """One topology, one 16th of its reference run: every stride-th scheduling step x every victim x restart in {0, 7000}."""
     nref = reference_steps(case)
     n = nontrivial = 0
-    nvict = 2 if case['topo'] == 'watch' else 3 if case['topo'] in ('chain', 'tee') else 4
+    nvict = 2 if case['topo'] == 'watch' else 3 if case['topo'] in ('chain', 'tee', 'ephfirst') else 4
     lo, hi = nref * case['chunk'] // case['chunks'], nref * (case['chunk'] + 1) // case['chunks']
     first = (lo + case['stride'] - 1) // case['stride'] * case['stride']
     for kstep in range(first, hi, case['stride']):
@@ -239,7 +245,23 @@ def run_enum(case):
     return out
 
 
+def aimed_cases(tier):
+    """The two topologies with an ephemeral attachment, their source killed after it has been up (and counting) for a while."""
+    for topo in ('watch', 'ephfirst'):
+        for required in (True,):
+            for frac in (0.25, 0.5, 0.75, 0.95):
+                for restart in (0, 300, 2000):
+                    yield {'topo': topo, 'required': required, 'work': [20, 0, 0], 'victim': 0, 'kfrac': frac, 'kstep': 0, 'fault': 'kill', 'restart': restart, 'stall_ms': 6000,
+                           'fast_src': True, 'net': {'cls': 'lan', 'delays': [[500, 3000]], 'conn': [500, 9000], 'drops': [], 'ties': [0], 'flush': True, 'reconn_lag_ms': 0}, 'ipc': False}
+
+
+def run_aimed(case):
+    nref = reference_steps(case)
+    return run_case({**case, 'kstep': int(nref * case['kfrac'])}, nref)
+
+
 PARTS = [
-    Part('sampled_faults', run_case, strategy=case_strategy, examples={'quick': 60, 'thorough': 1500}, share=0.55),
-    Part('kill_point_sweep', run_enum, kind='enum', cases=enum_cases, share=0.45),
+    Part('viewer_restarts', run_aimed, kind='enum', cases=aimed_cases, share=0.2),
+    Part('sampled_faults', run_case, strategy=case_strategy, examples={'quick': 60, 'thorough': 1500}, share=0.45),
+    Part('kill_point_sweep', run_enum, kind='enum', cases=enum_cases, share=0.4),
 ]
